@@ -237,6 +237,12 @@ def profile_C10(g, tier):
             scen["epochs"][1]["params"] = {"max_tries": g.pick("rmt", ["1", "3"])}
         if g.chance("cleanup", 0.4):
             scen["epochs"][1]["world_ops"] = [{"op": "cleanup", "p": 0.4, "pools": "all"}]
+        if g.chance("two_jobs", 0.35):
+            # results of several previous jobs accumulate: replay = "job0 job1"
+            second = {"crash_at": g.pick("crash_at2", [0.3, 0.7, 1.2])} if g.chance("crash2", 0.5) else {}
+            if g.chance("second_replays", 0.5):
+                second["replay"] = "job0"
+            scen["epochs"] = [scen["epochs"][0], second, dict(scen["epochs"][1], replay="job0 job1")]
     elif kind == "verdict":
         scen["params"].update(g.pick("vr", [{}, {"max_tries": "2"}]))
     return scen
